@@ -19,7 +19,8 @@ Notation Inv := (Inv cap peer selof).
 (* ---- (i) stream integrity ---------------------------------------------------------------------------------- *)
 Record Fifo (s : st) : Prop := {
   FA : forall p, sent (P s p) = rcvd (P s p) ++ buf (P s p);
-  FB : forall p, eof (P s p) = true -> wshut (P s p) = true /\ buf (P s p) = []
+  FB : forall p, eof (P s p) = true -> wshut (P s p) = true /\ buf (P s p) = [];
+  FC : forall f, kest (Kn s f) = kacc (Kn s f) ++ kq (Kn s f)
 }.
 
 Ltac opn := unfold finish, die, wake, wake_to, set_pend, disarm in *; simp.
@@ -34,7 +35,8 @@ Lemma sys_done_fifo s x m r p' ev :
   sent q = rcvd q ++ buf q -> (eof q = true -> wshut q = true /\ buf q = []) ->
   sent p' = rcvd p' ++ buf p' /\ (eof p' = true -> wshut p' = true /\ buf p' = []).
 Proof.
-  intros Hs q HA HB. unfold syscall in Hs. fold q in Hs. destruct (akind x).
+  intros Hs q HA HB. pose proof (sys_done_kind _ _ _ _ _ _ _ _ Hs) as D.
+  unfold syscall in Hs. fold q in Hs. destruct (akind x); [| |destruct D; discriminate|destruct D; discriminate].
   - destruct (buf q) as [|b bs] eqn:Eb.
     + destruct (wshut q) eqn:W; [|discriminate]. injection Hs as <- <- <-. cbn. rewrite HA. split; auto.
     + rewrite <- Eb in *. destruct (_ && _) eqn:G; [|discriminate]. injection Hs as <- <- <-. cbn. split.
@@ -48,18 +50,56 @@ Proof.
       * intros E. destruct (HB E). congruence.
 Qed.
 
+(* what a connection entering a backlog does to the accounting of the listeners *)
+Lemma enqueue_fifo kn l c : (forall f, kest (kn f) = kacc (kn f) ++ kq (kn f)) ->
+  forall f, kest (enqueue kn l c f) = kacc (enqueue kn l c f) ++ kq (enqueue kn l c f).
+Proof.
+  intros H f. unfold enqueue. destruct (Nat.eq_dec f l) as [->|N]; [rewrite upd_eq | rewrite upd_neq by exact N; apply H].
+  cbn. rewrite H, app_assoc. reflexivity.
+Qed.
+Lemma kupd_fifo kn g k' : (forall f, kest (kn f) = kacc (kn f) ++ kq (kn f)) ->
+  kest k' = kacc k' ++ kq k' -> forall f, kest (upd kn g k' f) = kacc (upd kn g k' f) ++ kq (upd kn g k' f).
+Proof. intros H H' f. destruct (Nat.eq_dec f g) as [->|N]; [rewrite upd_eq; exact H' | rewrite upd_neq by exact N; apply H]. Qed.
+
+(* what a finished accept / connect did to the backlogs *)
+Lemma sysk_fifo s x m r kn' ev :
+  syscall cap peer s x m = SysK r kn' ev ->
+  (forall f, kest (Kn s f) = kacc (Kn s f) ++ kq (Kn s f)) -> forall f, kest (kn' f) = kacc (kn' f) ++ kq (kn' f).
+Proof.
+  intros Hs H. pose proof (sysk_kind _ _ _ _ _ _ _ _ Hs) as D.
+  unfold syscall in Hs. destruct (akind x); [destruct D; discriminate|destruct D; discriminate| |].
+  - destruct (kq (Kn s (afd x))) as [|c q'] eqn:E; [discriminate|]. inversion Hs; subst. apply kupd_fifo; [exact H|].
+    cbn. rewrite H, E, <- app_assoc. reflexivity.
+  - destruct (kst (Kn s (afd x))); [destruct m as [|[|e]]| | | |]; try discriminate; inversion Hs; subst; try exact H.
+    + apply enqueue_fifo. apply kupd_fifo; [exact H|]. cbn. apply H.
+    + apply kupd_fifo; [exact H|]. cbn. apply H.
+    + apply kupd_fifo; [exact H|]. cbn. apply H.
+Qed.
+Lemma sysagaink_fifo s x m kn' :
+  syscall cap peer s x m = SysAgainK kn' ->
+  (forall f, kest (Kn s f) = kacc (Kn s f) ++ kq (Kn s f)) -> forall f, kest (kn' f) = kacc (kn' f) ++ kq (kn' f).
+Proof.
+  intros Hs H. destruct (sys_againk _ _ _ _ _ _ Hs) as [_ ->]. apply kupd_fifo; [exact H|]. cbn. apply H.
+Qed.
+
 Lemma fifo_init : Fifo init.
-Proof. constructor; cbn; intros; [reflexivity | discriminate]. Qed.
+Proof. constructor; cbn; intros; [reflexivity | discriminate | reflexivity]. Qed.
 
 Lemma fifo_step s ac s' : Fifo s -> step s ac = Some s' -> Fifo s'.
 Proof.
-  intros [iA iB] H.
+  intros [iA iB iC] H.
   step_cases H; opn; dm.
   all: try (constructor; simp; assumption).
   all: try (match goal with Es : syscall _ _ ?s ?x ?m = SysDone _ _ _ |- _ =>
               destruct (sys_done_fifo s x m _ _ _ Es (iA _) (iB _)) as [X1 X2] end;
-            constructor; simp; intros p0; upds; auto).
-  - (* Shutdown *) constructor; simp; intros p0; upds; auto.
+            constructor; simp; auto; intros p0; upds; auto).
+  all: try (match goal with Es : syscall _ _ ?s ?x ?m = SysK _ _ _ |- _ =>
+              pose proof (sysk_fifo s x m _ _ _ Es iC) as X1 end; constructor; simp; auto).
+  all: try (match goal with Es : syscall _ _ ?s ?x ?m = SysAgainK _ |- _ =>
+              pose proof (sysagaink_fifo s x m _ Es iC) as X1 end; constructor; simp; auto).
+  all: try (constructor; simp; auto; apply kupd_fifo; [exact iC | cbn; apply iC]).
+  all: try (constructor; simp; auto; apply enqueue_fifo; apply kupd_fifo; [exact iC | cbn; apply iC]).
+  - (* Shutdown *) constructor; simp; auto; intros p0; upds; auto.
     intros E. destruct (iB _ E). auto.
 Qed.
 
@@ -94,7 +134,8 @@ Theorem syscall_results s x m r p' ev :
   | _ => False
   end.
 Proof.
-  intros Hs q. unfold syscall in Hs. fold q in Hs. destruct (akind x).
+  intros Hs q. pose proof (sys_done_kind _ _ _ _ _ _ _ _ Hs) as D.
+  unfold syscall in Hs. fold q in Hs. destruct (akind x); [| |destruct D; discriminate|destruct D; discriminate].
   - destruct (buf q) as [|b bs] eqn:Eb.
     + destruct (wshut q) eqn:W; [|discriminate]. injection Hs as <- <- <-. auto.
     + rewrite <- Eb in *. destruct (_ && _) eqn:G; [|discriminate]. injection Hs as <- <- <-. cbn.
@@ -112,6 +153,40 @@ Proof.
       apply Nat.leb_le in G1, G2, G3.
       repeat split; auto. rewrite app_length, firstn_length. lia.
 Qed.
+
+(* accept hands over exactly the head of the backlog and removes it; connect reports success only when the kernel has
+   established the connection (at once, or CEst / CConn after an attempt in progress) and an error only when the kernel
+   failed the attempt with that error (at once, or the pending error CRef e of an attempt in progress) *)
+Theorem syscall_results_k s x m r kn' ev :
+  syscall cap peer s x m = SysK r kn' ev ->
+  let f := afd x in
+  match r with
+  | RAcc c => akind x = Ac /\ kq (Kn s f) = c :: kq (kn' f) /\ kacc (kn' f) = kacc (Kn s f) ++ [c] /\ ev = None
+  | RConn => akind x = Co /\ kst (kn' f) = CConn /\
+             (kst (Kn s f) = CEst \/ kst (Kn s f) = CConn \/
+              (kst (Kn s f) = CNone /\ m = 1 /\ kq (kn' (an x)) = kq (Kn s (an x)) ++ [f] /\ (kq (Kn s (an x)) = [] -> ev = Some (an x))))
+  | RErr e => akind x = Co /\ (kst (Kn s f) = CRef e \/ (kst (Kn s f) = CNone /\ m = S (S e)))
+  | _ => False
+  end.
+Proof.
+  intros Hs f. subst f. pose proof (sysk_kind _ _ _ _ _ _ _ _ Hs) as D.
+  unfold syscall in Hs. destruct (akind x); [destruct D; discriminate|destruct D; discriminate| |].
+  - destruct (kq (Kn s (afd x))) as [|c q'] eqn:E; [discriminate|]. inversion Hs; subst. rewrite upd_eq. cbn. auto.
+  - destruct (kst (Kn s (afd x))) eqn:E; [destruct m as [|[|e]]| | | |]; try discriminate; inversion Hs; subst; clear Hs.
+    + split; [reflexivity|]. split; [rewrite kst_enqueue, upd_eq; reflexivity|]. right; right.
+      split; [reflexivity|]. split; [reflexivity|]. unfold enqueue, q_edge. rewrite upd_eq. cbn.
+      assert (Q : kq (upd (Kn s) (afd x) (k_start (Kn s (afd x)) CConn (an x) true) (an x)) = kq (Kn s (an x))).
+      { destruct (Nat.eq_dec (an x) (afd x)) as [Z|N]; [rewrite Z, upd_eq; reflexivity | rewrite upd_neq by exact N; reflexivity]. }
+      rewrite Q. split; [reflexivity|]. intros ->. reflexivity.
+    + auto.
+    + rewrite upd_eq. cbn. auto.
+    + auto.
+    + rewrite E. auto.
+Qed.
+
+(* every connection that entered the backlog of a listener was accepted or is still in it, in the order of arrival *)
+Theorem backlog_fifo s f : Reach s -> kest (Kn s f) = kacc (Kn s f) ++ kq (Kn s f).
+Proof. intros R. apply (FC _ (fifo_reach _ R)). Qed.
 
 (* ---- (ii) no missed edge ------------------------------------------------------------------------------------ *)
 
@@ -137,6 +212,23 @@ Proof.
   - destruct (H11 _ _ _ _ I _ _ Hh) as [f X]. rewrite Qc in X. discriminate.
   - destruct (H13 _ _ _ _ I _ _ Hh) as (L & f & X); rewrite (Qs _ L) in X; discriminate.
   - apply (H10 _ _ _ _ I) in Hh. destruct (Qa a) as [_ W]. congruence.
+Qed.
+
+(* ... spelled out for the two operations the property names besides read and write: in a quiescent state no acceptor is
+   suspended while the backlog of its listener is non-empty, and no connector is suspended after the kernel has
+   established or failed its connection attempt *)
+Corollary no_missed_accept s a :
+  Reach s -> Quiescent s -> apc (A s a) = Susp -> akind (A s a) = Ac -> kq (Kn s (afd (A s a))) = [].
+Proof.
+  intros R Q Hs Hk. pose proof (no_missed_edge s a R Q Hs) as N. unfold avail in N. rewrite Hk in N.
+  destruct (kq (Kn s (afd (A s a)))); [reflexivity | exfalso; apply N; discriminate].
+Qed.
+Corollary no_missed_connect s a :
+  Reach s -> Quiescent s -> apc (A s a) = Susp -> akind (A s a) = Co ->
+  kst (Kn s (afd (A s a))) <> CEst /\ forall e, kst (Kn s (afd (A s a))) <> CRef e.
+Proof.
+  intros R Q Hs Hk. pose proof (no_missed_edge s a R Q Hs) as N. unfold avail in N. rewrite Hk in N.
+  split; [intros E; apply N; left; exact E | intros e E; apply N; right; exists e; exact E].
 Qed.
 
 (* the wake token of a suspended caller is in exactly one place (`ahome` names it); in particular a coroutine is in at
